@@ -624,8 +624,8 @@ impl Scenario for EarlyStop {
          the cases, queue capacities capped to 1..8 in half of them (full queues), starvation policies included. \
          Oracle: no panic, no deadlock, every managed thread finished within the step budget (50 x reference + 5000), \
          exit status in the allowed set, partial -o file = whole packets and a prefix of the expected filtered data; \
-         after the first failed write to stdout at most 8 further writes to it are attempted (at most 4 on the \
-         unchanged tree); after the stop event at most one batch of 100 packets + 64 KiB of read-ahead are still \
+         a stdout failure that the producer runs into three times or more is noticed (fatal reported or stop flag \
+         raised); after the stop event at most one batch of 100 packets + 64 KiB of read-ahead are still \
          read from the input. A quarter of the check / view command lines carry an (ignored) -o. \
          Non-trivial: >= 3 managed threads. Distinct: (input hash, reference trace hash)."
             .into()
@@ -707,7 +707,15 @@ impl Scenario for EarlyStop {
                     0 | 1 => {
                         let v = VIEW_MODES[rng.usize_below(3)];
                         parts = s(v);
-                        parts.extend(f.args());
+                        if many_batches {
+                            // a long stream without filter: dozens of batches are printed after the failure
+                            // by a tool that does not notice it
+                            let mut big = cfg.clone();
+                            big.hbfs = (400, 800);
+                            st = gen_conforming(&big, &mut rng);
+                        } else {
+                            parts.extend(f.args());
+                        }
                         if rng.chance(1, 2) {
                             parts.push("-d".into());
                         }
@@ -787,7 +795,7 @@ impl Scenario for EarlyStop {
             exit_code = None;
             extras = CmdExtras { stats_ext: "json".into(), ..Default::default() };
         }
-        if parts.iter().any(|a| a == "check" || a == "view") && !parts.iter().any(|a| a == "-o") && rng.chance(1, 4) {
+        if parts.iter().any(|a| a == "check" || a == "view") && !parts.iter().any(|a| a == "-o" || a == "-p") && rng.chance(1, 4) {
             // an output destination next to a check or view is accepted with a warning and ignored
             // (global option: before the subcommand)
             let at = parts.iter().position(|a| a == "check" || a == "view").unwrap_or(0);
@@ -804,7 +812,14 @@ impl Scenario for EarlyStop {
             }
             label.push_str(" +ignored -o");
         }
-        let input = st.bytes();
+        let mut input = st.bytes();
+        if label.starts_with("fatal-framing | write file") && rng.chance(1, 2) && input.len() > 64 {
+            // the input simply ends inside a packet (no bad offset needed): the incomplete packet is not a
+            // whole packet and must not reach the output file
+            let cut = 1 + rng.usize_below(input.len() - 1);
+            input.truncate(cut);
+            label = "input ends inside a packet | write file".to_string();
+        }
         let im = pick_input_mode(&mut rng);
         let mut base = specgen::spec(im, &parts, input);
         base.custom_checks_toml = extras.checks_toml.clone();
